@@ -145,6 +145,7 @@ package objectz
 //@   ensures result != nil ==> itPos[result] == 0 && 0 <= itLen[result] && itLen[result] < MaxInt64
 
 //@ func (*ObjectStore).newRowComparator
+//@   trusted builds the comparator chain of the object store (the bolt store's twin is proved; this one is assumed to write nothing)
 //@   pure
 
 // The row an ObjectCursor stands on is its field `current`: symRow[c] = entKey(c.current).
